@@ -126,7 +126,9 @@ Exec(st, prog, mode, r, lt, p) ==
         adv(s) == [s EXCEPT !.rt = Put(s.rt, r, [s.rt[r] EXCEPT !.pc = me.pc + 1])] IN
     CASE i.op = "Y" ->
             LET s1 == adv(st) IN
-            [s1 EXCEPT !.q = Put(s1.q, me.clock, Insert(s1.q[me.clock], [p |-> p + i.a, s |-> s1.ctr, t |-> r])),
+            \* (scheduling is "add or move": an entry the routine got meanwhile, e.g. by signalling a condition it is
+            \* itself still registered on, is replaced)
+            [s1 EXCEPT !.q = Put(s1.q, me.clock, Insert(Without(s1.q[me.clock], r), [p |-> p + i.a, s |-> s1.ctr, t |-> r])),
                        !.ctr = s1.ctr + 1]
       [] i.op = "E" -> [st EXCEPT !.rt = Put(st.rt, r, [me EXCEPT !.st = "done", !.pc = Len(body) + 1])]
       [] i.op = "P" -> Exec(PlayQ(adv(st), prog, lt, i.s, i.c, me.clock, me.gen, i.a, i.b), prog, mode, r, lt, p)
@@ -157,7 +159,7 @@ Exec(st, prog, mode, r, lt, p) ==
             LET c == st.cond[i.s]
                 s1 == adv(st) IN
             IF c.test
-            THEN [s1 EXCEPT !.q = Put(s1.q, me.clock, Insert(s1.q[me.clock], [p |-> p, s |-> s1.ctr, t |-> r])),
+            THEN [s1 EXCEPT !.q = Put(s1.q, me.clock, Insert(Without(s1.q[me.clock], r), [p |-> p, s |-> s1.ctr, t |-> r])),
                             !.ctr = s1.ctr + 1]
             ELSE [s1 EXCEPT !.cond = Put(s1.cond, i.s, [c EXCEPT !.waiting = Append(c.waiting, r)])]
       [] i.op = "G" ->      \* (a = 1: cond.test = True;) cond.signal(): if the test holds every parked routine is
